@@ -7,14 +7,20 @@ from e1 import DEFAULT_FEATURES as DF
 
 Q, T = "quick", "thorough"
 
-DEFAULT_UNWINDSET = {"poseidon_hash_many": 8}
+# per-loop bounds for library/model loops whose trip count is fixed by a byte width or by the
+# number of UF rows; the harness-wide bound (kani::unwind) then only has to cover the loops
+# and the recursion of the code under test.  Unwinding assertions stay on.
+DEFAULT_UNWINDSET = {"poseidon_hash_many": 8, "from_bytes_be_slice": 34, "to_bytes_be": 10, "word_from_be32": 10,
+                     "word_at": 10, "word_bytes": 10, "verif_uf::hash2": 40, "verif_uf::arith2": 40, "hi_zero_from": 10,
+                     "felt_core::shr": 6, "felt_core::shl": 6, "felt_core::low_bits": 6, "felt_core::mul_small": 18,
+                     "num_bigint": 10, "Hasher": 10}
 
-def e1(id, harness, bounds, desc, tier=Q, features=DF, timeout=900, witness=True, unwindset=None):
+def e1(id, harness, bounds, desc, tier=Q, features=DF, timeout=900, witness=True, unwindset=None, mem=8):
     us = dict(DEFAULT_UNWINDSET)
     us.update(unwindset or {})
     unwindset = us
     return dict(id=id, engine="e1", harness=harness, features=features, tier=tier, bounds=bounds,
-                desc=desc, timeout=timeout, witness=witness, unwindset=unwindset)
+                desc=desc, timeout=timeout, witness=witness, unwindset=unwindset, mem=mem)
 
 BLAKE = "recursive,blake2s_248_lsb,stone6"
 K248 = "recursive,keccak_248_lsb,stone5"
@@ -105,6 +111,7 @@ PROPS["C10"] = dict(
            tier=(Q if n <= 2 else T), timeout=1800, witness=(n <= 1))
         for n in range(0, 6)
     ] + [
+        e1("C10.generate.n3.small_domain", "c10_generate_3_small", "as C10.generate.n3 with domain size 2^k, k in 1..=3 (collisions are the interesting case and do not depend on k)", "generate_queries == sort+dedup(...) for 3 queries over tiny domains", timeout=900, witness=False),
         e1("C10.points", "c10_points", "log domain size any in 1..=64, generator any felt, index any < 2^log (one query)", "queries_to_points: index -> 3 * w^bitreverse_log(index) (w^e an uninterpreted pow, bit reversal exact)", timeout=1200),
     ],
     outside=["query counts above 5 (sorting code is std's; the loop body is uniform)", "agreement with the indices the prover logged on recorded proofs (concrete file replay)",
@@ -112,7 +119,7 @@ PROPS["C10"] = dict(
 )
 def _hist(name, seq, diff, tier=Q):
     return e1("C08.history.%s.diff%d" % (seq, diff), name, "operation sequence %s (A absorb felt, V absorb 2-vector, U absorb u64, S squeeze), initial digest and all messages any felts; two runs differing exactly in the message of operation %d" % (seq, diff),
-              "challenges before the changed message are equal, all later ones differ; challenges of one run are pairwise different", tier=tier, timeout=900)
+              "challenges before the changed message are equal, all later ones differ; challenges drawn without an intervening message are pairwise different", tier=tier, timeout=900)
 PROPS["C08"] = dict(
     title="Fiat-Shamir challenges depend on exactly the messages sent before them",
     level="model_checking",
@@ -131,4 +138,90 @@ PROPS["C08"] = dict(
     outside=["agreement with the V->P lines of recorded Stone annotations (concrete file replay, not a solver question)",
              "histories longer than 5 operations are covered only through the inductive step laws (C08.step.*)",
              "commit-phase ordering (stark_commit / fri_commit / traces_commit): see the C08.order.* obligations when present"],
+)
+
+REC = "rec:vector::decommit::compute_root_from_queries"
+def _c04(kind, h, k, tier, feats=DF, tag=""):
+    name = "c04_%s_h%d_k%d" % (kind, h, k)
+    desc = {"bind": "root of a tree over arbitrary leaves; ANY claimed values and authentication nodes: Ok => each value is the committed leaf at its index",
+            "complete": "honest leaves + honest sibling nodes (independent builder): Ok <=> commitment is the tree's root"}[kind]
+    return e1("C04.%s.h%d.k%d%s" % (kind, h, k, tag), name,
+              "height %d (%d leaves, any felts), %d sorted distinct query indices (symbolic), friendly-layer count any in 0..=%d, authentication vector of %d arbitrary felts" % (h, 1 << h, k, h + 1, h * k),
+              desc, tier=tier, features=feats, timeout=2400, unwindset={REC: h * k + 2}, mem=(10 if h * k <= 2 else 24))
+def _c04c(h, tier, feats=DF, tag=""):
+    return e1("C04.corrupt_auth.h%d%s" % (h, tag), "c04_corrupt_h%d" % h, "height %d, one query (index symbolic), one authentication node replaced by any different value (position symbolic) / last node missing" % h,
+              "a changed or missing sibling node is rejected", tier=tier, features=feats, timeout=2400, unwindset={REC: h + 2}, mem=16)
+PROPS["C04"] = dict(
+    title="Merkle vector decommitment is complete and binding for all shapes",
+    level="model_checking",
+    obligations=[
+        _c04("bind", 1, 1, Q), _c04("bind", 2, 1, Q), _c04("bind", 2, 2, Q), _c04("complete", 2, 1, Q), _c04("complete", 2, 2, Q), _c04c(2, Q),
+        _c04("bind", 2, 2, Q, BLAKE, ".blake2s_248"), _c04("complete", 2, 2, Q, BLAKE, ".blake2s_248"),
+        _c04("bind", 3, 1, T), _c04("bind", 3, 2, T), _c04("bind", 3, 3, T), _c04("complete", 3, 2, T), _c04("complete", 3, 3, T), _c04c(3, T), _c04c(1, T),
+        _c04("bind", 2, 2, T, K248, ".keccak_248"), _c04("complete", 2, 2, T, K248, ".keccak_248"),
+        _c04("bind", 2, 2, T, B160, ".blake2s_160"), _c04("complete", 2, 2, T, B160, ".blake2s_160"),
+    ],
+    outside=["tree heights above 3 and more than 3 queries (the queue algorithm is a uniform recursion; that induction is not made here)",
+             "collision resistance of the hashes (assumed: uninterpreted collision-free functions)"],
+)
+def _c05(id, harness, bounds, desc, tier=Q, feats=DF, depth=3, mem=12, timeout=2400):
+    return e1(id, harness, bounds, desc, tier=tier, features=feats, timeout=timeout, unwindset={REC: depth}, mem=mem)
+PROPS["C05"] = dict(
+    title="Table decommitment binds every cell of every queried row",
+    level="model_checking",
+    obligations=[
+        _c05("C05.row.cols1", "c05_row_1_f1", "1 column, 1 row (vector height 0); cell, commitment any felts", "Ok <=> commitment == the cell in Montgomery form (single-column rows unhashed); a different cell is rejected", depth=1),
+        _c05("C05.row.cols2.friendly", "c05_row_2_f1", "2 columns, 1 row; cells and commitment any felts; friendly-layer count 1 = height+1", "Ok <=> commitment == Poseidon row hash of the cells*R; a row differing in any cell is rejected", depth=1),
+        _c05("C05.row.cols2.masked", "c05_row_2_f0", "2 columns, 1 row; cells and commitment any felts; friendly-layer count 0", "Ok <=> commitment == masked (Keccak/Blake2s low bits) row hash of the cells*R; a differing row is rejected (the real code's byte-wise flat_map/extend makes this a multi-million-step symex: thorough only)", tier=T, depth=1, mem=44, timeout=7200),
+        _c05("C05.length.0", "c05_length_0", "2 columns, 1 query, 0 cells", "cell count != columns x queries is rejected", depth=1),
+        _c05("C05.length.1", "c05_length_1", "2 columns, 1 query, 1 cell", "cell count != columns x queries is rejected", depth=1),
+        _c05("C05.length.3", "c05_length_3", "2 columns, 1 query, 3 cells", "cell count != columns x queries is rejected", depth=1),
+        _c05("C05.length.2", "c05_length_2", "2 columns, 1 query, 2 cells (accepted)", "exact cell count accepted", tier=T, depth=1),
+        _c05("C05.delegate.f2", "c05_delegate_f2", "2 columns x 2 rows (vector height 1), both rows queried, cells any felts, friendly-layer count 2 (row and node hash Poseidon), the 24 permutations of the 4 cells (symbolic)", "accepted iff the cells are the committed ones in their rows and columns", depth=3),
+        _c05("C05.delegate.f1", "c05_delegate_f1", "as C05.delegate.f2 with friendly-layer count 1 (row hash masked, node hash Poseidon): the depth rule height+1", "accepted iff cells unchanged", tier=T, depth=3, mem=44, timeout=7200),
+        _c05("C05.delegate.f0", "c05_delegate_f0", "as C05.delegate.f2 with friendly-layer count 0 (all masked)", "accepted iff cells unchanged", tier=T, depth=3, mem=44, timeout=7200),
+        _c05("C05.row.cols4.friendly", "c05_row_4_f1", "4 columns, 1 row, Poseidon", "row hash over 4 cells", tier=T, depth=1),
+        _c05("C05.row.cols3.friendly", "c05_row_3_f1", "3 columns, 1 row, Poseidon", "row hash over 3 cells", tier=T, depth=1),
+        _c05("C05.row.cols3.masked", "c05_row_3_f0", "3 columns, 1 row, masked hash", "row hash over 3 cells", tier=T, depth=1, mem=44, timeout=7200),
+        _c05("C05.row.cols1.f0", "c05_row_1_f0", "1 column, friendly-layer count 0", "single cell unhashed regardless of the friendly rule", tier=T, depth=1),
+        _c05("C05.row.cols2.masked.blake2s_248", "c05_row_2_f0", "2 columns, Blake2s/248 build", "masked row hash", tier=T, feats=BLAKE, depth=1, mem=44, timeout=7200),
+        _c05("C05.row.cols2.masked.keccak_248", "c05_row_2_f0", "2 columns, Keccak/248 build", "masked row hash", tier=T, feats=K248, depth=1, mem=44, timeout=7200),
+        _c05("C05.row.cols2.masked.blake2s_160", "c05_row_2_f0", "2 columns, Blake2s/160 build", "masked row hash", tier=T, feats=B160, depth=1, mem=44, timeout=7200),
+    ],
+    outside=["more than 4 columns (FRI layers use up to 16) and heights above 1", "x -> x*R injective: a field law (R != 0) assumed through the cancellation law of the mul UF"],
+)
+
+E2S_ASSUMPTIONS = E2_ASSUMPTIONS + [
+    "felt-sx (structural) encoding: field elements are integers mod p; general mul/pow/div and all hashes are uninterpreted; hashes are collision-free (injectivity through companion inverse functions) and domain separated",
+    "vector LENGTHS are enumerated (concrete per query), contents symbolic; the Rust subset executed is listed in smt/README.md - leaving it is inconclusive",
+]
+PROPS["C13"] = dict(
+    title="The public-input digest binds every field of the public input",
+    level="model_checking",
+    technique="symbolic execution of the real get_hash (parsed from /repo each run) into z3 terms with uninterpreted collision-free hashes; native replay through replay_e2",
+    obligations=[e2("C13")],
+    assumptions=E2S_ASSUMPTIONS,
+    outside=["main pages longer than 2 cells / more than 1 continuous header (uniform chain)", "agreement of the seed with the prover's first challenges on recorded proofs (concrete file replay)",
+             "an E1 (Kani) harness for get_hash exists (harness/src/scen/c13.rs) but its symex needs > 3M steps because of vec!/flat_map churn; it is not registered"],
+)
+PROPS["C14"] = dict(
+    title="Public-input validation and returned hashes follow the memory layout",
+    level="model_checking",
+    technique="symbolic execution of the real validate_public_input / verify_public_input (z3, integers mod p, uninterpreted Pedersen) against an independent integer predicate and an address-based oracle; Kani cross-check of validate for the recursive layout in the thorough tier",
+    obligations=[
+        e2("C14"),
+        e1("C14.validate.recursive.kani", "c14_validate", "layout recursive: log_n_steps, range-check bounds, layout code, all 6 segment bounds any felts; trace length 2^t, t any in 0..=120",
+           "validate_public_input(..).is_ok() <=> the statement's predicate (usage = stop - begin in the field)", tier=T, timeout=5400, mem=16),
+    ],
+    assumptions=E2S_ASSUMPTIONS,
+    outside=["quick tier: layout recursive only (thorough: all layouts the executor can run)", "main pages longer than 6 cells"],
+)
+PROPS["C06"] = dict(
+    title="FRI accepts every polynomial below the bound; folding is polynomial folding",
+    level="model_checking",
+    technique="source-to-SMT: the parsed fri_formula executed over Z[t]/(t^8+1) (z3 polynomial identity, all polynomials/challenges/coset points), group and constant lemmas by concrete big-integer evaluation, Horner identity",
+    obligations=[e2("C06")],
+    assumptions=E2_ASSUMPTIONS,
+    outside=["end-to-end fri_commit+fri_verify completeness over all step lists of 2..15 layers against a coefficient-space prover (concrete-run technique); small-shape completeness is decided under C07 (C07S obligations) when present",
+             "Merkle completeness: C04/C05"],
 )
